@@ -1,5 +1,11 @@
 /-
-Model of `pyyeti.cyclecount.findap` (both source variants) and `pyyeti.locate.find_unique`.
+Shared definitions for the models of `pyyeti.cyclecount.findap` (`absd`, `stol`, `uniqMask` =
+`locate.find_unique`, `select`, `pvOf`, `expand`, `selOf`, `skipInit`, `Alt`, `NoSubTolDrift`) and —
+HISTORY — the models of the two variants as their text was BEFORE the repairs f8f6e40 (F4) and
+4b29dcf (F14, F22, F23): `findapDef`, `findapSeq`, `loopSeq`.  The code that exists now is modelled
+in `Model/FindapFix.lean` (`findapDefFix`, `findapSeqFix`); the correspondence check, the fdepsd
+model and the property theorems use those.  The pre-fix definitions are kept only to state what
+changed (`Props/C10PreFix.lean`, outside the property claims).
 Core Lean only (no Mathlib) so that it runs under `lake env lean --run`.
 
 * `findapDef`  — the variant that executes when numba is absent (`if not HAVE_NUMBA:`): the
